@@ -22,7 +22,7 @@ ENGINES = {
               '13': 'truncation closed a request', '14': 'crash while a request is outstanding',
               '15': 'coverage judged on a completed request', '16': 'coverage judged on an outstanding request that progressed',
               '17': 'a refresh re-assigned the client', '18': 'a record emitted twice', '19': 'timing case with n > burst',
-              '20': 'several partitions active at once', '21': 'main and recovery events in one case', '22': 'straggler ahead of the client position emitted'},
+              '20': 'several partitions active at once', '21': 'main and recovery events in one case', '22': 'straggler ahead of the client position emitted', '23': 'owner stopped while blocked on an emission'},
         trusted_base=_TB,
         assumptions=['the recovery client is an oracle: after Assign (p,a) it delivers a, a+1, ... in order; stale records are either below its '
                      'position (Stale op) or stragglers of the previous assignment AHEAD of it (Ahead op: inside the active window and not a multiple of '
@@ -33,6 +33,9 @@ ENGINES = {
                      'single failing query makes the processed subset depend on Go map order); map iterations are canonicalised by partition',
                      'a crash = the instance is discarded, a new one receives the last payload per key of all messages sent so far (compaction), '
                      'is told its partitions and refreshes; undecodable payloads are not kept on the topic',
+                     'RecCrash: the next record is delivered with the source channel full; the handler is taken to be blocked on the send once the limiter '
+                     'was consulted and neither waits nor sent messages changed for 30 ms (a handler that neither returns nor reaches the send within 3 s is '
+                     'reported as an error observation); the blocked goroutine is leaked and the instance abandoned like in a crash',
                      'logic cases build the limiter with rate 1e9 so that Wait never sleeps; waits are counted through the context passed to Wait'],
         shards=8,
     ),
